@@ -118,7 +118,11 @@ pub fn stmt(st: &Stmt) -> Value {
 
 /// Run `f` under catch_unwind; Err(()) if the code under test panicked.
 pub fn guard<T>(f: impl FnOnce() -> T) -> Result<T, ()> {
-    std::panic::catch_unwind(std::panic::AssertUnwindSafe(f)).map_err(|_| ())
+    IN_GUARD.with(|g| g.set(g.get() + 1));
+    let r = std::panic::catch_unwind(std::panic::AssertUnwindSafe(f)).map_err(|_| ());
+    IN_GUARD.with(|g| g.set(g.get() - 1));
+    r
 }
+thread_local! { pub static IN_GUARD: std::cell::Cell<u32> = const { std::cell::Cell::new(0) }; }
 
 pub fn nucleus_none() -> Value { s("none", 0, 0, 0, 0, "", "") }
